@@ -2,6 +2,7 @@ package checks
 
 import (
 	"crypto/ed25519"
+	"encoding/json"
 	"errors"
 	"fmt"
 	"regexp"
@@ -135,6 +136,29 @@ func c18BoardView(r *kit.Run, rec *world.Recording, tier string, v int, senderKe
 				break
 			}
 		}
+		// the first batch reconstructed from the others' answers while this node's own signing
+		// operation is still pending (a slow operator): round idle again, operation in the pool
+		for k := 1; k < len(rec.PreSnaps[v]) && k <= len(rec.Log); k++ {
+			if rec.Log[k-1].Event != string(sif.EventSigningStart) || rec.PreSnaps[v][k] == nil {
+				continue
+			}
+			var pre []storage.Message
+			var bid struct{ BatchID string }
+			_ = json.Unmarshal(rec.Log[k-1].Data, &bid)
+			for _, m := range rec.Log[k:] {
+				if m.Event != string(sif.EventSigningPartialSignReceived) || m.SenderAddr == w.Nodes[v].Name {
+					continue
+				}
+				var ps struct{ BatchID string }
+				if json.Unmarshal(m.Data, &ps) == nil && ps.BatchID == bid.BatchID {
+					pre = append(pre, m)
+				}
+			}
+			if len(pre) >= w.T {
+				bases = append(bases, baseState{View: v, K: k, Pre: "own-answer-outstanding", Raw: rec.PreSnaps[v][k], PreMs: pre})
+			}
+			break
+		}
 		for _, bs := range bases {
 			if r.TimeUp() {
 				return
@@ -184,6 +208,8 @@ func c18BoardView(r *kit.Run, rec *world.Recording, tier string, v int, senderKe
 						}
 					}
 				}
+				// the genuine message once more, byte for byte (anyone can append a copy)
+				muts = append(muts, mutant{Label: "unchanged-copy", Msg: g})
 				for _, ev := range []string{"", "event_unknown", string(types.ReinitDKG), string(sif.EventSigningRestart)} {
 					mm := g
 					mm.Event = ev
